@@ -358,8 +358,79 @@ fn uniformity_jobs() -> Vec<Job> {
     jobs
 }
 
+/// Long sources, built once and sampled many times (the jobs above rebuild the distribution for
+/// every sample and stop at 200 members): members 0..len identify themselves, frequencies are
+/// judged in 16 index buckets plus the first and last three members individually.
+fn long_choice_jobs() -> Vec<Job> {
+    let mut jobs = vec![];
+    macro_rules! long_job {
+        ($fname:expr, $len:expr, |$items:ident| $build:expr, |$x:ident| $val:expr) => {{
+            let len: usize = $len;
+            let name = format!("{} over {len} members, built once", $fname);
+            jobs.push(Job {
+                name: name.clone(),
+                run: Box::new(move |trials, seed| {
+                    let mut rng = StdRng::seed_from_u64(seed);
+                    let $items: Vec<i32> = (0..len as i32).collect();
+                    let built = guarded(|| $build.map(|d| {
+                        let n = ChoicesDistribution::num_choices(&d).get();
+                        (d, n)
+                    }));
+                    let (d, n) = match built {
+                        Ok(Ok(x)) => x,
+                        Ok(Err(_)) => return Err(Fail::new("choice/spurious-empty-error", format!("{name}: rejected"))),
+                        Err(p) => return Err(Fail::new("choice/panic", format!("{name}: {p}"))),
+                    };
+                    if n != len {
+                        return Err(Fail::new("choice/num_choices", format!("{name}: num_choices() = {n}")));
+                    }
+                    let mut buckets = [0u64; 16];
+                    let mut ends = [0u64; 6];
+                    for _ in 0..trials {
+                        let $x = d.sample(&mut rng);
+                        let v: i32 = $val;
+                        if v < 0 || v as usize >= len {
+                            return Err(Fail::new("choice/not-a-member", format!("{name}: returned {v}")));
+                        }
+                        let v = v as usize;
+                        buckets[v * 16 / len] += 1;
+                        if v < 3 {
+                            ends[v] += 1;
+                        }
+                        if v + 3 >= len {
+                            ends[3 + (len - 1 - v)] += 1;
+                        }
+                    }
+                    let mut stats = vec![];
+                    for (b, k) in buckets.iter().enumerate() {
+                        let members = (0..len).filter(|v| v * 16 / len == b).count();
+                        stats.push(Stat::new("choice/not-uniform", format!("{name}: a member of index bucket {b}/16 chosen"), *k, trials, members as f64 / len as f64));
+                    }
+                    for (i, k) in ends.iter().enumerate() {
+                        let which = if i < 3 { format!("member {i}") } else { format!("member {}", len - 1 - (i - 3)) };
+                        stats.push(Stat::new("choice/not-uniform", format!("{name}: {which} chosen"), *k, trials, 1.0 / len as f64));
+                    }
+                    Ok(stats)
+                }),
+            });
+        }};
+    }
+    for len in [255usize, 256, 257, 1000, 4096, 65_537] {
+        long_job!(FLAVOURS[0], len, |items| items.clone().into_distribution(), |x| x);
+        long_job!(FLAVOURS[1], len, |items| IntoDistribution::<&i32>::into_distribution(&items), |x| *x);
+        long_job!(FLAVOURS[2], len, |items| IntoDistribution::<i32>::into_distribution(&items), |x| x);
+        long_job!(FLAVOURS[3], len, |items| ToDistribution::<i32>::to_distribution(&items), |x| x);
+        long_job!(FLAVOURS[4], len, |items| ToDistribution::<&i32>::to_distribution(&items), |x| *x);
+        long_job!(FLAVOURS[10], len, |items| IntoDistribution::<&i32>::into_distribution(items.as_slice()), |x| *x);
+        long_job!(FLAVOURS[11], len, |items| IntoDistribution::<i32>::into_distribution(items.as_slice()), |x| x);
+        long_job!(FLAVOURS[12], len, |items| ToDistribution::<&i32>::to_distribution(items.as_slice()), |x| *x);
+        long_job!(FLAVOURS[13], len, |items| ToDistribution::<i32>::to_distribution(items.as_slice()), |x| x);
+    }
+    jobs
+}
+
 pub fn run(ctx: &mut Ctx) {
-    ctx.rule = "collections: sizes 0..300 plus boundary sizes up to 5000 (and 100000 once per run) through Generator for Vec<T>, Bitstring, Plushy, populations of scored individuals and nested collections, into_ and to_ flavours, with an element generator that counts how often it is asked and tags what it emits (length = size, asked exactly size times, elements are exactly the generator's output). choices: all 14 conversion flavours of conversion.rs (Vec / array / slice x into / to x owned-cloning / borrowing / cloning) plus uniform_distribution_of!, sources of length 0..8 (membership) and 1..200 (frequencies) with and without duplicates: empty => rejected at construction without panic; samples are members (pointer identity for borrowing flavours), num_choices = length; member frequencies = multiplicity / length (Chernoff/KL). non-trivial = size >= 2 / source length >= 2; statistics with 0 < p < 1".into();
+    ctx.rule = "collections: sizes 0..300 plus boundary sizes up to 5000 (and 100000 once per run) through Generator for Vec<T>, Bitstring, Plushy, populations of scored individuals and nested collections, into_ and to_ flavours, with an element generator that counts how often it is asked and tags what it emits (length = size, asked exactly size times, elements are exactly the generator's output). choices: all 14 conversion flavours of conversion.rs (Vec / array / slice x into / to x owned-cloning / borrowing / cloning) plus uniform_distribution_of!, sources of length 0..8 (membership) and 1..200 (frequencies) with and without duplicates, plus the Vec / slice flavours built once over 255..65537 members and sampled many times (16 index buckets and the end members): empty => rejected at construction without panic; samples are members (pointer identity for borrowing flavours), num_choices = length; member frequencies = multiplicity / length (Chernoff/KL). non-trivial = size >= 2 / source length >= 2; statistics with 0 < p < 1".into();
     let (n, trials, max) = ctx.tier.pick((300_000u32, 1_000_000u64, 300usize), (5_000_000, 10_000_000, 2_000));
     // one very large request per run
     ctx.run_cases(
@@ -374,12 +445,16 @@ pub fn run(ctx: &mut Ctx) {
     );
     ctx.run_prop("generated", n, move || strategy(max), oracle);
     run_jobs(ctx, "choice_uniformity", uniformity_jobs(), trials);
+    run_jobs(ctx, "choice_uniformity_long_sources", long_choice_jobs(), trials);
 }
 
 pub fn replay(ctx: &mut Ctx, sub: &str, case: &Value) {
     if sub == "choice_uniformity" {
         let trials = ctx.tier.pick(1_000_000u64, 10_000_000);
         run_jobs(ctx, "choice_uniformity", uniformity_jobs(), trials);
+    } else if sub == "choice_uniformity_long_sources" {
+        let trials = ctx.tier.pick(1_000_000u64, 10_000_000);
+        run_jobs(ctx, "choice_uniformity_long_sources", long_choice_jobs(), trials);
     } else {
         ctx.replay_case::<Case, _>(sub, case, oracle);
     }
